@@ -14,6 +14,8 @@ Canonical form
   expressions  ('bin', op, a, b) ('un', op, e) ('post', op, e) ('cond', c, a, b)
                ('assign', op, l, r) ('comma', a, b) ('cast', type, e) ('call', callee, (args..))
                ('sizeof_e', e) ('sizeof_t', type) ('stmtexpr', (items..))
+               ('memload', sign, width, (args..)) ('memstore', sign, width, (args..)) ('jump', e) ('nop',) ('cancel',)
+               ('macro', NAME, (args..))     the dialect's built-ins, by the names of the QEMU/Rizin macros
                ('index', a, i) ('member', a, name) ('arrow', a, name)
   statements   ('block', (items..)) ('expr', e) ('empty',) ('decl', quals, ((name, type, init|None)..))
                ('if', c, then, else|None) ('for', init|None, cond|None, step|None, body)
@@ -61,6 +63,15 @@ BINRULES = {
 }
 
 PTR_SHAPE = re.compile(r"^[^&]&[^&]$")
+
+# built-ins of the dialect (what the shortcode macros expand to); a call of one of these names is not a
+# sub-routine call.  The reference side recognises them by name, the Lark side by rule.
+MEM_RE = re.compile(r"^mem_(load|store)_([su])(1|2|4|8|16|32|64)$")
+DIALECT_MACROS = {
+    "FLOAT", "DOUBLE", "fUNFLOAT", "fUNDOUBLE", "HEX_GET_INSN_RMODE", "HEX_SETROUND", "HEX_SINT_TO_D", "HEX_SINT_TO_F", "HEX_INT_TO_D", "HEX_INT_TO_F",
+    "HEX_F_TO_SINT", "HEX_D_TO_SINT", "HEX_F_TO_INT", "HEX_D_TO_INT",
+    "REGFIELD", "extract32", "extract64", "sextract64", "deposit32", "deposit64", "bswap16", "bswap32", "bswap64", "get_corresponding_CS",
+}
 
 # ---------------------------------------------------------------------------------------
 # Lark side: types
@@ -271,14 +282,17 @@ def x_sub_routine(t):
 def x_macro(t):
     if not t.children or not isinstance(t.children[0], Token):
         raise Unknown("macro_expr shape")
-    return ("call", ("id", str(t.children[0])), _args(t.children[1:]))
+    return ("macro", str(t.children[0]), _args(t.children[1:]))
 
 
 def _mem(t):
     c = t.children
     if len(c) < 4 or not all(isinstance(x, Token) for x in c[:3]):
         raise Unknown("%s shape" % t.data)
-    return ("call", ("id", "%s%s%s" % (c[0], c[1], c[2])), _args(c[3:]))
+    m = MEM_RE.match("%s%s%s" % (c[0], c[1], c[2]))
+    if not m or (m.group(1) == "load") != (t.data == "mem_load"):
+        raise Unknown("%s with tokens %r" % (t.data, [str(x) for x in c[:3]]))
+    return ("mem" + m.group(1), m.group(2), m.group(3), _args(c[3:]))
 
 
 def x_comma(t):
@@ -460,13 +474,15 @@ def s_jump(t):
     if len(c) == 1 and isinstance(c[0], Tree) and c[0].data == "nop":
         return s_nop(c[0])
     if len(c) == 2 and isinstance(c[0], Token) and c[0].type == "JUMP":
-        return ("expr", ("call", ("id", str(c[0])), (lexpr(c[1]),)))
+        return ("expr", ("jump", lexpr(c[1])))
     raise Unknown("jump shape")
 
 
 def s_nop(t):
     _n(t, 1)
-    return ("expr", ("id", _tok(t.children[0], "nop")))
+    if _tok(t.children[0], "nop") != "__NOP":
+        raise Unknown("nop token %r" % (t.children[0],))
+    return ("expr", ("nop",))
 
 
 def s_mem_store(t):
@@ -475,7 +491,7 @@ def s_mem_store(t):
 
 def s_cancel(t):
     _n(t, 0)
-    return ("expr", ("id", "cancel_slot"))
+    return ("expr", ("cancel",))
 
 
 def s_labeled(t):
@@ -581,7 +597,13 @@ class RefCanon:
         k = x[0]
         if k == "paren":
             return self.e(x[1])
+        if k == "plainid":  # set by a finding rule of the check: this name is read as an ordinary identifier
+            return ("id", x[1])
         if k == "id":
+            if x[1] == "__NOP":
+                return ("nop",)
+            if x[1] == "cancel_slot":
+                return ("cancel",)
             return classify_identifier(x[1], self.pairs)
         if k == "num":
             return ("num", x[3])
@@ -606,8 +628,20 @@ class RefCanon:
             while callee[0] == "paren":
                 callee = callee[1]
             # the callee of the dialect is a plain name (grammar: sub_routine: identifier "(" ..)
-            c = ("id", callee[1]) if callee[0] == "id" else self.e(callee)
-            return ("call", c, tuple(self.e(a) for a in x[2]))
+            args = tuple(self.e(a) for a in x[2])
+            if callee[0] == "plainid":
+                return ("call", ("id", callee[1]), args)
+            if callee[0] == "id":
+                name = callee[1]
+                m = MEM_RE.match(name)
+                if m:
+                    return ("mem" + m.group(1), m.group(2), m.group(3), args)
+                if name == "JUMP" and len(args) == 1:
+                    return ("jump", args[0])
+                if name in DIALECT_MACROS:
+                    return ("macro", name, args)
+                return ("call", ("id", name), args)
+            return ("call", self.e(callee), args)
         if k == "sizeof_e":
             return ("sizeof_e", self.e(x[1]))
         if k == "sizeof_t":
